@@ -457,11 +457,16 @@ pub fn lzma2_max_compressed_chunk(seed: u64) -> Option<(Vec<u8>, Vec<u8>)> {
 pub struct BudgetCursor {
     pub inner: std::io::Cursor<Vec<u8>>,
     pub left: u64,
+    /// at most this many bytes per read call (a legal short-reading source); 0 = no limit
+    pub max_read: usize,
 }
 #[allow(dead_code)]
 impl BudgetCursor {
     pub fn new(data: Vec<u8>, budget: u64) -> Self {
-        BudgetCursor { inner: std::io::Cursor::new(data), left: budget }
+        BudgetCursor { inner: std::io::Cursor::new(data), left: budget, max_read: 0 }
+    }
+    pub fn short(data: Vec<u8>, budget: u64, max_read: usize) -> Self {
+        BudgetCursor { inner: std::io::Cursor::new(data), left: budget, max_read }
     }
     fn spend(&mut self) -> std::io::Result<()> {
         if self.left == 0 {
@@ -474,7 +479,8 @@ impl BudgetCursor {
 impl std::io::Read for BudgetCursor {
     fn read(&mut self, buf: &mut [u8]) -> std::io::Result<usize> {
         self.spend()?;
-        self.inner.read(buf)
+        let n = if self.max_read > 0 { buf.len().min(self.max_read) } else { buf.len() };
+        self.inner.read(&mut buf[..n])
     }
 }
 impl std::io::Seek for BudgetCursor {
